@@ -15,6 +15,7 @@ import D2P.Props.C02BodyStray
 import D2P.Props.C02Notes
 import D2P.Props.C02Deep
 import D2P.Props.C02DeepCells
+import D2P.Props.C02Post
 /-!
 # JSON line protocol between the Python harness and the model
 -/
@@ -358,6 +359,15 @@ def handleValid (j : Json) : Except String Json := do
           match rootElement o a files r with | .ok cr => toJson (deepPartOK cr.2) | .error _ => Json.null))),
        ("<deepcok>", Json.mkObj (cs.map fun r => (String.ofList r.path,
           match rootElement o a files r with | .ok cr => toJson (deepCPartOK cr.2) | .error _ => Json.null))),
+       -- the right-hand side of `C02_post_part` (the paragraphs in the order of their closing tags) and the hypothesis of
+       -- `C02_post_document_order` (no paragraph encloses another one), per content part as walked
+       ("<post>", Json.mkObj (cs.map fun r => (String.ofList r.path,
+          match rootElement o a files r with | .ok cr => toJson (post cr.2) | .error _ => Json.null))),
+       -- hypothesis of `C02_post_part_dup` (no cell continues a vertical merge)
+       ("<vfree>", Json.mkObj (cs.map fun r => (String.ofList r.path,
+          match rootElement o a files r with | .ok cr => toJson (vfree cr.2) | .error _ => Json.null))),
+       ("<flat>", Json.mkObj (cs.map fun r => (String.ofList r.path,
+          match rootElement o a files r with | .ok cr => toJson (leafIds cr.2 == pre cr.2) | .error _ => Json.null))),
        ("<groups>", toJson ((cs.map fun r => match rootElement o a files r with
           | .ok cr => ((itemsOf (bodyKids cr.2)).filter fun i => match i with | .grp _ => true | _ => false).length | .error _ => 0).foldl (· + ·) 0)),
        ("<sources>", toJson (cs.all fun r => match a.readXml r.path with | .ok root => validT root && goodTree root && sameWb root | .error _ => true))]))
